@@ -562,6 +562,35 @@ func (g *GoBackNConn) sendPacketsForever() error {
 	}
 }
 
+// recvHandOffTimeout is how long the receive loop waits for room when the
+// layer above has not taken the packets received earlier.
+const recvHandOffTimeout = 100 * time.Millisecond
+
+// errQuit is returned by handToRecv when the connection is shutting down.
+var errQuit = errors.New("gbn exited")
+
+// handToRecv hands a data packet to Recv. It reports false if there was no
+// room for the packet within recvHandOffTimeout.
+func (g *GoBackNConn) handToRecv(m *PacketData) (bool, error) {
+	select {
+	case g.recvDataChan <- m:
+		return true, nil
+	default:
+	}
+
+	timer := time.NewTimer(recvHandOffTimeout)
+	defer timer.Stop()
+
+	select {
+	case g.recvDataChan <- m:
+		return true, nil
+	case <-timer.C:
+		return false, nil
+	case <-g.quit:
+		return false, errQuit
+	}
+}
+
 // receivePacketsForever uses the provided recvFromStream to get new data
 // from the underlying transport. It then checks to see if what was received is
 // data, an ACK, NACK or FIN signal and then processes the packet accordingly.
@@ -624,21 +653,27 @@ func (g *GoBackNConn) receivePacketsForever() error { // nolint:gocyclo
 				// expect of the next data packet.
 				g.log.Tracef("Got expected data %d", m.Seq)
 
-				// If the layer above has not taken the
-				// previous packets yet and we have no room
-				// left for this one, we treat it as lost: it
-				// is not acknowledged and will be sent again.
-				// Waiting for room instead would stop this
-				// goroutine from processing the ACKs and
-				// keepalive answers of the peer, so that our
-				// own sends and the keepalive would fail on a
-				// healthy connection.
-				if !m.IsPing &&
-					len(g.recvDataChan) == cap(g.recvDataChan) {
+				// Pass the packet to the layer above GBN. If
+				// that layer has not taken the previous
+				// packets yet and there is no room left, we
+				// give it a moment and then treat the packet
+				// as lost: it is not acknowledged and will be
+				// sent again. Waiting for room without limit
+				// would stop this goroutine from processing
+				// the ACKs and keepalive answers of the peer,
+				// so that our own sends and the keepalive
+				// would fail on a healthy connection.
+				if !m.IsPing {
+					accepted, err := g.handToRecv(m)
+					if err != nil {
+						return nil
+					}
+					if !accepted {
+						g.log.Tracef("No room for data %d",
+							m.Seq)
 
-					g.log.Tracef("No room for data %d", m.Seq)
-
-					continue
+						continue
+					}
 				}
 
 				ack := &PacketACK{
@@ -651,20 +686,6 @@ func (g *GoBackNConn) receivePacketsForever() error { // nolint:gocyclo
 				}
 
 				g.recvSeq = (g.recvSeq + 1) % g.cfg.s
-
-				// If the packet was a ping, then there is no
-				// data to return to the above layer.
-				if m.IsPing {
-					continue
-				}
-
-				// Pass the returned packet to the layer above
-				// GBN.
-				select {
-				case g.recvDataChan <- m:
-				case <-g.quit:
-					return nil
-				}
 
 			case false:
 				// We received a data packet with a sequence
